@@ -256,6 +256,10 @@ func Same(a, b Value, tol float64) bool {
 		return ok && x == y
 	case *List:
 		y, ok := b.(*List)
+		if ok && (x.Unordered || y.Unordered) && x.Err != nil && y.Err != nil {
+			// which elements precede the failure depends on the unspecified order
+			return true
+		}
 		if !ok || len(x.Items) != len(y.Items) || (x.Err == nil) != (y.Err == nil) {
 			return false
 		}
